@@ -1,11 +1,12 @@
 (** Executable correspondence predicate for C02 (and the end-to-end observation of C01): evaluated on the
-    outputs of generated probe crates.  A case is one (locale, key, argument assignment): the source AST of
-    the translation written for that key in that locale (the independent description), the arguments the
-    probe passed, and what every accessor flavour printed (string-like flavours verbatim; view flavours after
+    outputs of generated probe crates.  A case is one (locale, key, argument assignment): the source ASTs of
+    the translations written for that key in the locales that define it, the `inherits` table of the
+    configuration (the independent description), the arguments the probe passed, and what every accessor flavour printed (string-like flavours verbatim; view flavours after
     the HTML canonicalisation of checks/probe_common.py). *)
 From Coq Require Import List NArith ZArith Bool Arith.
 Import ListNotations.
-From LI Require Import Base.StrOps Parser.Parse Parser.Json Parser.Reduce Parser.Source Parser.ParseCheck Codegen.Target.
+From LI Require Import Base.StrOps Parser.Parse Parser.Json Parser.Reduce Parser.Source Parser.ParseCheck Parser.Merge
+  Codegen.Target Codegen.LocaleMatch.
 Open Scope N_scope.
 
 (** one alternative of a range arm; numbers are doubled (so that x.5 bounds and counts of float ranges stay integers) *)
@@ -21,8 +22,8 @@ Definition rcond_holds (c : Z) (r : rcond) : bool :=
 Inductive src_value :=
 | SrcStr (items : list item) (file : str)   (* a JSON string: its source AST and the text written in the file *)
 | SrcLit (l : lit)                          (* a JSON number / boolean *)
-| SrcRange (float : bool) (arms : list (list rcond * (list item * str))) (count : Z).
-    (* a range table (arms in file order, no alternative = the fallback `_`) and the count passed *)
+| SrcRange (float : bool) (arms : list (list rcond * (list item * str))).
+    (* a range table (arms in file order, no alternative = the fallback `_`) *)
 
 (** the arm the documentation promises: the first one that contains the count *)
 Definition src_arm (arms : list (list rcond * (list item * str))) (count : Z) : option (list item * str) :=
@@ -32,7 +33,12 @@ Definition src_arm (arms : list (list rcond * (list item * str))) (count : Z) : 
   end.
 
 Record case := mk_case {
-  c_src : src_value;
+  c_table : list (N * src_value);   (* the locales (numbered in configuration order, default = 0) whose file defines
+                                       the key with a non-null value, and what is written there *)
+  c_inherits : list (N * N);        (* the `inherits` table: locale -> the locale it inherits from *)
+  c_nlocales : N;                   (* number of configured locales *)
+  c_locale : N;                     (* the locale asked for *)
+  c_count : Z;                      (* the count passed (doubled), for range keys *)
   c_vars : list (str * str);        (* variable key ("var_x") -> the value passed *)
   c_comps : list (str * str);       (* component key ("comp_b") -> the html tag the passed component wraps children in *)
   c_string_outputs : list str;      (* td_string, td_display, t_string, ..., const chain, scoped variants *)
@@ -45,48 +51,92 @@ Definition env_of (c : case) : env :=
          (fun k => c_lt :: assoc k (c_comps c) ++ [c_gt])
          (fun k => c_lt :: c_slash :: assoc k (c_comps c) ++ [c_gt]).
 
+(** the locale whose translation must be shown (C03's rule, stated on the configuration): the first locale of
+    the walk l, inherits l, inherits (inherits l) ... that defines the key, the default (locale 0) when the walk
+    ends or comes back on itself *)
+Definition defines_key (c : case) (l : N) : bool := existsb (fun d => fst d =? l) (c_table c).
+Definition effective_locale (c : case) : N :=
+  first_defined (map_get (c_inherits c)) (defines_key c) 0 (N.to_nat (c_nlocales c)) (c_locale c).
+
 (** what the source says: the pieces of the translation *)
-Definition src_pieces (s : src_value) : list piece :=
+Definition src_pieces (s : src_value) (count : Z) : list piece :=
   match s with
   | SrcStr items _ => denote_list items
   | SrcLit l => pc_norm [PcText (lit_display l)]
-  | SrcRange _ arms count => match src_arm arms count with Some (items, _) => denote_list items | None => [] end
+  | SrcRange _ arms => match src_arm arms count with Some (items, _) => denote_list items | None => [] end
   end.
 
-(** the model pipeline: parser, reduce, both code generators, evaluated *)
-Definition model_value (s : src_value) : res pv :=
+(** the model pipeline: parser, reduce, range selection *)
+Definition model_value (s : src_value) (count : Z) : Parse.res pv :=
   match s with
-  | SrcStr _ file => bind (model_parse file) reduce
-  | SrcLit l => Ok (PLit l)
-  | SrcRange float arms count =>
-      let parsed := map (fun a => (fst a, bind (model_parse (snd (snd a))) reduce)) arms in
+  | SrcStr _ file => Parse.bind (model_parse file) reduce
+  | SrcLit l => Parse.Ok (PLit l)
+  | SrcRange float arms =>
+      let parsed := map (fun a => (fst a, Parse.bind (model_parse (snd (snd a))) reduce)) arms in
       match (if float then ifchain_select rcond (rcond_holds count) parsed else match_select rcond (rcond_holds count) parsed) with
       | Some r => r
-      | None => Err 0
+      | None => Parse.Err 0
       end
   end.
 
+Definition src_file_ok (s : src_value) : bool :=
+  match s with
+  | SrcStr items file => str_eqb (print_list items) file
+  | SrcLit _ => true
+  | SrcRange _ arms => forallb (fun a => str_eqb (print_list (fst (snd a))) (snd (snd a))) arms
+  end.
+
+(** every defining locale's value through the model, [None] when one of them is outside the model *)
+Fixpoint model_defs (t : list (N * src_value)) (count : Z) : option (list (N * pv)) :=
+  match t with
+  | [] => Some []
+  | (l, s) :: r => match model_value s count, model_defs r count with
+                   | Parse.Ok v, Some r' => Some ((l, v) :: r')
+                   | _, _ => None
+                   end
+  end.
+Fixpoint lit_defs (t : list (N * src_value)) : option (list (N * lit)) :=
+  match t with
+  | [] => Some []
+  | (l, SrcLit x) :: r => option_map (cons (l, x)) (lit_defs r)
+  | _ => None
+  end.
+
 (** 0 = agree and spec holds; 1 = outside the modelled domain; 2 = implementation differs from the model
-    (spec holds) or the case file is inconsistent; 3 = some flavour does not render what the source says *)
+    (spec holds) or the case file is inconsistent; 3 = some flavour does not render what the source of the
+    effective locale says *)
 Definition check (c : case) : N :=
   let e := env_of c in
-  let ps := src_pieces (c_src c) in
-  let want_s := render e ps in
-  let want_v := render_ssr e ps in
-  if negb (forallb (str_eqb want_s) (c_string_outputs c) && forallb (str_eqb want_v) (c_view_outputs c)) then 3
-  else
-    N.max
-    match c_src c with
-    | SrcStr items file => if str_eqb (print_list items) file then 0 else 2
-    | SrcLit _ => 0
-    | SrcRange _ arms _ => if forallb (fun a => str_eqb (print_list (fst (snd a))) (snd (snd a))) arms then 0 else 2
-    end
-    match model_value (c_src c) with
-      | Unmodelled => 1
-      | Ok r =>
-          if forallb (str_eqb (eval_string e (gen_string r))) (c_string_outputs c)
-             && forallb (str_eqb (eval_view_ssr e (gen_view r))) (c_view_outputs c)
-             && str_eqb (eval_view e (gen_view r)) (eval_display e (gen_display r))
-          then 0 else 2
-      | _ => 2
-      end.
+  match assoc_get (c_table c) (effective_locale c) with
+  | None => 2                      (* the generator wrote a key the default locale does not define *)
+  | Some src =>
+      let ps := src_pieces src (c_count c) in
+      let want_s := render e ps in
+      let want_v := render_ssr e ps in
+      if negb (forallb (str_eqb want_s) (c_string_outputs c) && forallb (str_eqb want_v) (c_view_outputs c)) then 3
+      else if negb (forallb (fun d => src_file_ok (snd d)) (c_table c)) then 2
+      else
+        (* the model: the mapping pushed while merging, compute's groups, the three generated matches *)
+        let others := map N.of_nat (seq 1 (N.to_nat (c_nlocales c) - 1)) in
+        let d := defaults_of 0 (c_inherits c) others (defines_key c) in
+        let groups := compute d in
+        match model_defs (c_table c) (c_count c) with
+        | None => 1
+        | Some defs =>
+            match view_locale_match groups defs (c_locale c), string_locale_match groups defs (c_locale c) with
+            | Some tv_, Some ts_ =>
+                if forallb (str_eqb (eval_string e ts_)) (c_string_outputs c)
+                   && forallb (str_eqb (eval_view_ssr e tv_)) (c_view_outputs c)
+                   && str_eqb (eval_view e tv_) (eval_display e ts_)
+                   && match lit_defs (c_table c) with
+                      | Some ld => match literal_locale_match groups ld (c_locale c) with
+                                   | Some x => forallb (str_eqb (lit_inner x)) (c_string_outputs c)
+                                   | None => false
+                                   end
+                      | None => true
+                      end
+                then 0 else 2
+            | _, _ => 2
+            end
+        end
+  end.
